@@ -392,8 +392,15 @@ class Check:
             "wall_s": round(time.time() - self.t0, 2),
             "violations": len(violations),
         }
-        os.makedirs(os.path.join(ROOT, "evidence"), exist_ok=True)
-        with open(os.path.join(ROOT, "evidence", "%s.json" % self.pid), "w") as f:
+        # evidence describes runs against /repo itself; experiments on another tree
+        # (VERIF_REPO=<worktree>, seeded changes) write theirs next to the scratch space
+        evdir = os.path.join(ROOT, "evidence")
+        repo = os.environ.get("VERIF_REPO", "/repo")
+        if os.path.realpath(repo) != os.path.realpath("/repo"):
+            evdir = os.path.join(os.environ.get("TMPDIR", "/tmp"), "sasverif-evidence-other-tree")
+            ev["coverage"]["tree_under_test"] = repo
+        os.makedirs(evdir, exist_ok=True)
+        with open(os.path.join(evdir, "%s.json" % self.pid), "w") as f:
             json.dump(ev, f, indent=1, default=str)
         for ln in lines:
             print(ln)
